@@ -73,7 +73,7 @@ class Index:
                 op = Op(ev)
                 self.ops.append(op)
                 open_ops[(d["actor"], d["i"])] = op
-                if d["do"] in ("finish", "disconnect", "device_info", "list_entities", "request", "subscribe_states"):
+                if d["do"] not in ("connect", "start", "conn.new", "fh.attach"):
                     op.conn = cur_conn
             elif kind == "op_end":
                 op = open_ops.pop((d["actor"], d["i"]), None)
